@@ -196,13 +196,17 @@ def stream_b_rand(rng, tier, impl, modelled):
     # following CODE.DO / CODE.IF executes may contain EXEC.CMD (spawns a process named by a NAME: outside the "harmless target"
     # clause) or an operand-sized allocation (C15's envelope) — nondeterministically.  CODE.RAND itself is swept in stream
     # a-rand and the programs it generates are executed, filtered, in stream c.
-    names = sorted(n for n in modelled if n not in stepgen.UNSAFE and n != "CODE.RAND")
+    # ... and the instructions that allocate by an INTEGER operand (ONES / ZEROS / SINE / NEIGHBOR*, the vector RANDs) are left out too:
+    # whether a program stays inside the resource envelope is decided on the MODEL's draws, the implementation draws for itself, and an
+    # INTEGER computed from its own draws may be allocation-sized (a false alarm of this kind was observed once: worker aborted on a case
+    # that passes when replayed).  They are swept in streams a / a-rand and run inside deterministic programs in stream b.
+    names = sorted(n for n in modelled if n not in stepgen.UNSAFE and n != "CODE.RAND" and n not in stepgen.ALLOCATING and n not in boundgen.VEC_RAND)
     n = {"quick": 3000, "thorough": 20000, "search": 8000}[tier]
     cases = program_cases(rng, names, n, fixed=False, limits=[0, 1, 2, 5, 17, 40, 60], ks=[1, 2, 3, 10, 30, 60], tapes=True)
     n0 = len(cases)
     cases, outside, unres = env_filter(cases)
     _STASH["b-rand"] = cases
-    note = ("generated programs over ALL %d modelled names minus EXEC.CMD (with the RAND and the HashMap-ordered GRAPH instructions), at most 61 steps (a short horizon: "
+    note = ("generated programs over the %d modelled names minus EXEC.CMD, CODE.RAND and the instructions that allocate by operand (with the scalar / name RAND and the HashMap-ordered GRAPH instructions), at most 61 steps (a short horizon: "
             "the envelope decision follows the model's draws, the implementation's own draws may take another path), a 64-element tape for the model; "
             "compared through suite runnp (returned normally / panicked). generated %d, outside the envelope (dropped) %d, libm unresolved (dropped) %d"
             % (len(names), n0, outside, unres))
